@@ -72,13 +72,13 @@ fn k_sqpk_delete_data() {
     kani::cover!(true, "reachable");
 }
 
-//@unit props=C03 label=S tier=quick fn=patch::SqpkTargetInfo(derive read) bound="127-byte command; platform code 0..4 as a 16-bit big-endian word at 3, region word held at 0xFFFF (global), every other byte symbolic" stubs=fmt::format
-//@desc the target platform is the 16-bit big-endian code at offset 3; debug flag = word at 7 equals 1; version = word at 9; deleted-data size and seek count little-endian at 11 and 19; 127 bytes consumed
+//@unit props=C03 label=S tier=thorough fn=patch::SqpkTargetInfo(derive read) bound="123-byte command; platform code 0..4 as a 16-bit big-endian word at 3, region word held at 0xFFFF (global), every other byte symbolic" stubs=fmt::format
+//@desc the target platform is the 16-bit big-endian code at offset 3; debug flag = word at 7 equals 1; version = word at 9; deleted-data size and seek count little-endian at 11 and 19; 123 bytes consumed (96 reserved bytes at the end)
 #[kani::proof]
 #[kani::unwind(4)]
 #[kani::stub(alloc::fmt::format, stub_fmt)]
 fn k_sqpk_target_info() {
-    let mut b: [u8; 127] = kani::any();
+    let mut b: [u8; 123] = kani::any();
     let p: u8 = kani::any();
     kani::assume(p <= 4);
     b[3] = 0; b[4] = p;
@@ -91,7 +91,7 @@ fn k_sqpk_target_info() {
             assert!(t.version == be16(&b, 9), "version");
             assert!(t.deleted_data_size == u64::from_le_bytes([b[11], b[12], b[13], b[14], b[15], b[16], b[17], b[18]]), "deleted data size little-endian");
             assert!(t.seek_count == u64::from_le_bytes([b[19], b[20], b[21], b[22], b[23], b[24], b[25], b[26]]), "seek count little-endian");
-            assert!(c.position() == 127, "127 bytes");
+            assert!(c.position() == 123, "123 bytes");
         }
         Err(e) => { core::mem::forget(e); assert!(false, "command parses"); }
     }
